@@ -32,11 +32,14 @@ func TestMain(m *testing.M) {
 }
 
 // verifier re-verifies signatures with channel.Verify; results are cached per
-// (participant, state encoding, signature bytes) within a case.
+// (participant address, state encoding, signature bytes) for the process (the
+// peers' signatures come from mach's signature cache and recur in many cases;
+// Verify is a function of exactly these three values).
 type verifier struct {
 	parts []map[wallet.BackendID]wallet.Address
-	memo  map[[32]byte]string
 }
+
+var verifyMemo = map[[32]byte]string{}
 
 // check returns "" if sig verifies for every address of participant i over
 // state s, else a reason.
@@ -45,14 +48,24 @@ func (v *verifier) check(i int, s *channel.State, enc []byte, sig wallet.Sig) st
 		return "signature is nil"
 	}
 	hsh := sha256.New()
+	for _, a := range v.parts[i] {
+		ab, err := a.MarshalBinary()
+		if err != nil {
+			return "address not encodable: " + err.Error()
+		}
+		hsh.Write(ab)
+	}
 	hsh.Write([]byte{byte(i)})
 	hsh.Write(enc)
 	hsh.Write([]byte{0xff})
 	hsh.Write(sig)
 	var k [32]byte
 	copy(k[:], hsh.Sum(nil))
-	if r, ok := v.memo[k]; ok {
+	if r, ok := verifyMemo[k]; ok {
 		return r
+	}
+	if len(verifyMemo) > 100000 {
+		verifyMemo = map[[32]byte]string{}
 	}
 	r := ""
 	if len(v.parts[i]) == 0 {
@@ -66,7 +79,7 @@ func (v *verifier) check(i int, s *channel.State, enc []byte, sig wallet.Sig) st
 			r = "signature does not verify"
 		}
 	}
-	v.memo[k] = r
+	verifyMemo[k] = r
 	return r
 }
 
@@ -103,7 +116,7 @@ func runCase(c mach.Case) *h.Outcome {
 			phase = e.M.Phase()
 			at := func() string { return fmt.Sprintf("step %d %v in phase %v", i, op, phase) }
 			if v == nil {
-				v = &verifier{parts: e.M.Params().Parts, memo: map[[32]byte]string{}}
+				v = &verifier{parts: e.M.Params().Parts}
 				if len(v.parts) != n {
 					return h.Failf("harness:params", "machine reports %d participants, want %d", len(v.parts), n)
 				}
@@ -243,21 +256,23 @@ const oracle = "oracle (after every call, from CurrentTX()/StagingTX()/Adjudicat
 // TestEnum checks the invariant on the exhaustive enumeration shared with C09.
 func TestEnum(t *testing.T) {
 	rec := h.Begin("C01", "enum")
-	df, dp := h.Pick(3, 4), h.Pick(2, 3)
-	rec.SetRule(fmt.Sprintf("exhaustive: every sequence p.w over the complete alphabet of mach.Alphabet (41 concrete operations for two participants) with p = empty and |w| <= %d, and p one of 14 canonical protocol prefixes that reach every phase and |w| <= %d; two participants, own index 0 and 1, no-app and payment app; every sequence runs on a fresh machine; ", df, dp)+oracle, assumptions...)
+	b := mach.Bounds{Fresh: h.Pick(3, 4), FreshPayment: 3, Prefixed: h.Pick(2, 3)}
+	rec.SetRule(fmt.Sprintf("exhaustive: every sequence p.w over the complete alphabet of mach.Alphabet (41 concrete operations for two participants, 40 with the payment app) with p = empty and |w| <= %d (payment app: <= %d), and p one of 14 canonical protocol prefixes that reach every phase (mach.Prefixes) and |w| <= %d; two participants, own index 0 and 1, no-app and payment app; every sequence runs on a fresh machine; ", b.Fresh, b.FreshPayment, b.Prefixed)+oracle, assumptions...)
 	rec.SetExhaustive(true)
 	defer rec.Flush()
 	sh, n := h.Shard()
-	total := mach.Enumerate(df, dp, sh, n, func(cfg mach.Config, prefix string, plen int, ops []mach.Op) bool {
+	run := 0
+	total := mach.Enumerate(b, sh, n, func(cfg mach.Config, prefix string, plen int, ops []mach.Op) bool {
 		c := mach.Case{Cfg: cfg, Ops: ops}
 		o := runCase(c)
 		o.Class("prefix:" + prefix)
 		rec.Report(t, c, o)
+		run++
 		return !rec.Failed()
 	})
-	rec.Extra("enum_space_sequences", total)
-	rec.Extra("enum_depth_fresh", df)
-	rec.Extra("enum_depth_after_prefix", dp)
+	// numeric extras are summed over the shards by the driver, texts are not
+	rec.Extra("enum_sequences_run", run)
+	rec.Extra("enum_space", fmt.Sprintf("%d sequences (bounds: fresh <= %d, fresh with payment app <= %d, after a prefix <= %d)", total, b.Fresh, b.FreshPayment, b.Prefixed))
 }
 
 // TestRandom checks the invariant on random sequences.
